@@ -164,6 +164,9 @@ def regress_scenarios(full):
     # C19 / C15: definitions that bring their own nu module; restart restores them with it
     add([D("c1", 0, "c_mod"), CL("c1", 0), D("c1", 1, "c_mod"), CL("c1", 1), R("h1", 0, "h_mod"), T(0), RS("kill"), CL("c1", 0), T(0)],
         extra_kinds={"c_mod": cat.command_module(), "h_mod": cat.handler_module()})
+    # C19: a return TTL without a suffix; a module whose function appends; C15: a return value without a JSON form
+    add([D("c1", 0, "c_ttl"), CL("c1", 0), D("c2", 1, "c_amod"), CL("c2", 1), CL("c2", 1), R("h1", 0, "h_dur"), T(0), T(0, "t.y"),
+         RS("kill"), CL("c2", 1), CL("c1", 0), T(0)], extra_kinds={"c_amod": cat.command_module_append()})
     # C19: overlapping calls of a command whose output stream appends while it is drained
     add([D("c1", 0, "c_lazy"), CL("c1", 0), BURST([CL("c1", 0), CL("c1", 0), CL("c1", 0)]), D("c2", 1, "c_lazy"),
          BURST([CL("c2", 1), CL("c1", 0), CL("c2", 1)])])
@@ -201,7 +204,7 @@ def regress_scenarios(full):
     return out
 
 
-H_KINDS_T = ["h_echo", "h_echo", "h_echo_head", "h_lazy", "h_slow", "h_pulse", "h_a1", "h_a2", "h_a3ctx", "h_str", "h_int", "h_list", "h_bool", "h_none",
+H_KINDS_T = ["h_echo", "h_echo", "h_echo_head", "h_lazy", "h_dur", "h_slow", "h_pulse", "h_a1", "h_a2", "h_a3ctx", "h_str", "h_int", "h_list", "h_bool", "h_none",
              "h_silent", "h_suffix", "h_ttl", "h_suffix_a", "h_fail_before", "h_fail_mid", "h_fail_after", "h_cat", "h_cat_head"]
 H_KINDS_BAD = ["h_bad_parse", "h_bad_arity0", "h_bad_arity2", "h_bad_norun", "h_bad_resume", "h_bad_ttl"]
 TOPICS = ["t.x", "t.x", "t.y", "t.z", "t.fail", "t.slow"]
@@ -265,7 +268,7 @@ def random_handler_scenario(rng, s, long_ms):
     return mk(s, acts, mode=mode, cfg="random-h", extra_kinds=extra, long_ms=long_ms, seed=rng.randrange(1 << 30))
 
 
-C_KINDS = ["c_two", "c_two", "c_lazy", "c_env", "c_zero", "c_one", "c_three", "c_app", "c_err", "c_suffix", "c_slow", "c_cat", "c_bad_parse", "c_bad_norun"]
+C_KINDS = ["c_two", "c_two", "c_lazy", "c_ttl", "c_env", "c_zero", "c_one", "c_three", "c_app", "c_err", "c_suffix", "c_slow", "c_cat", "c_bad_parse", "c_bad_norun"]
 
 
 def random_command_scenario(rng, s, long_ms):
